@@ -341,14 +341,14 @@ def load_known():
     return res
 
 
-def run_unit(unit_name, tier, seed):
+def run_unit(unit_name, tier, seed, workdir=None):
     rl = 60 if tier == 'quick' else 240
     unverifiable = {}
     # Functions whose text the verifier rejects (unsupported construct after a source change) are replaced by
     # external_body stubs carrying their contract, so that the rest of the unit is still decided; the
     # obligations of the stubbed function itself are reported as undecided, never as discharged.
     for _round in range(6):
-        g = gen.generate(unit_name, force_stub=tuple(unverifiable))
+        g = gen.generate(unit_name, force_stub=tuple(unverifiable), workdir=workdir)
         probe = verify.run_verus(g['path'], 0, rl, 8, ['--no-verify'])
         pc = verify.classify(g, probe)
         bad = {}
@@ -361,6 +361,7 @@ def run_unit(unit_name, tier, seed):
         if not bad:
             break
         unverifiable.update(bad)
+    unverifiable.update(g.get('auto_stubbed', {}))
     res = _run_unit(unit_name, tier, seed, g, rl)
     res['unverifiable'] = unverifiable
     return res
@@ -379,6 +380,18 @@ def _run_unit(unit_name, tier, seed, g, rl):
         r = fr.result()
         cr = fc.result()
     c = verify.classify(g, r)
+    unstable = []
+    if tier == 'thorough':
+        # proof-stability check: a second solver seed; an obligation that fails under one seed only is reported as
+        # unstable (undecided), never as a violation
+        r2 = verify.run_verus(g['path'], (seed or 0) + 7919, rl, 8)
+        c2 = verify.classify(g, r2)
+        k1 = set((f.get('owner'), f.get('label'), f.get('lemma')) for f in c['failures'])
+        k2 = set((f.get('owner'), f.get('label'), f.get('lemma')) for f in c2['failures'])
+        unstable = sorted(str(k) for k in (k1 ^ k2))
+        c['failures'] = [f for f in c['failures'] if (f.get('owner'), f.get('label'), f.get('lemma')) in k2]
+        if c2['tool_errors'] and not c['tool_errors']:
+            c['tool_errors'] = c2['tool_errors']
     failed_canaries = set()
     for d in cr['diags']:
         if d.get('level') == 'error' and 'assertion failed' in d.get('message', ''):
@@ -388,7 +401,7 @@ def _run_unit(unit_name, tier, seed, g, rl):
     vacuous = sorted(set(canaries.values()) - failed_canaries)
     if not failed_canaries and canaries:
         raise ExtractError('vacuity canary run produced no result: %s' % ' '.join(cr['stderr'][:3]))
-    return dict(gen=g, run=r, cls=c, text=text, vacuous=vacuous, canary_wall=cr['wall'], n_canaries=len(set(canaries.values())))
+    return dict(gen=g, run=r, cls=c, text=text, vacuous=vacuous, canary_wall=cr['wall'], n_canaries=len(set(canaries.values())), unstable=unstable)
 
 
 def main(argv):
@@ -416,7 +429,7 @@ def main(argv):
 
     def _run(unit_name):
         try:
-            return run_unit(unit_name, tier, seed)
+            return run_unit(unit_name, tier, seed, workdir=os.path.join(WORK, prop))
         except ExtractError as e:
             return e
     with ThreadPoolExecutor(max_workers=4) as ex:
@@ -446,6 +459,8 @@ def main(argv):
                         unreached.add('%s/%s' % (unit_name, o))
             else:
                 notes.append('unit %s: %s stubbed (unsupported construct: %s); not needed by this property' % (unit_name, f, why))
+        if res.get('unstable'):
+            undecided.append('unit %s: unstable across solver seeds (not a violation): %s' % (unit_name, res['unstable'][:4]))
         if res['gen']['dropped_hints']:
             notes.append('unit %s: dropped hints %s' % (unit_name, res['gen']['dropped_hints']))
         for t in cls['tool_errors']:
@@ -511,6 +526,17 @@ def main(argv):
                 undecided = [u for u in undecided if "outside the verifier's reach" not in u]
                 notes.append('BOUNDED STAND-IN (not a proof): %d obligations of functions outside the verifier\'s reach were checked only by the bounded search on the real code: %s; %s'
                              % (len(unreached), w['bound'], w['stats']))
+    explored = None
+    if tier == 'thorough' and not reported and bounded is None:
+        dunits = [u for u in spec['units'] if u in DYNAMIC_UNITS]
+        if dunits:
+            explored = witness_search(prop, dunits, tier, seed)
+            if explored.get('history'):
+                reported.append(dict(obligation='bounded-exploration/%s (a failing history on the real code although every proof obligation was discharged: contract or oracle gap)' % prop,
+                                     message=explored['line'], site=None, rendered=explored['line']))
+                bounded = explored
+            else:
+                notes.append('thorough tier, additional BOUNDED exploration of the real code (not a proof): %s; %s' % (explored.get('bound', ''), explored.get('stats') or explored.get('error')))
     if reported:
         rc = 1
         replay_path = os.path.join(WORK, 'replays', '%s.replay.txt' % prop)
